@@ -18,7 +18,7 @@ KINDS = fg.KINDS
 QUICK_KINDS = ("httpresp", "tcp", "dnsresp")
 PARTS = ("boundary", "digits", "colon", "after_colon", "payload", "tag")
 CODE = {p: i for i, p in enumerate(PARTS)}
-OUTER_MAPPED = frozenset({"ValueError", "TypeError", "IndexError"})
+OUTER_MAPPED = frozenset({"ValueError", "TypeError", "IndexError", "RecursionError"})  # io.py outer handler
 
 START_HOOK = {"http": "request", "httpresp": "request", "httperr": "request", "ws": "request", "tcp": "tcp_start",
               "tcperr": "tcp_start", "udp": "udp_start", "dns": "dns_request", "dnsresp": "dns_request"}
